@@ -25,13 +25,16 @@ OPS = {
     'C03': ('pack', 'gendesc'),
     'C12': ('gendesc', 'initdump', 'init', 'unpack', 'pack', 'rt', 'acc', 'check'),
     'C13': ('gendesc', 'genenum', 'gensvc', 'lookup'),
+    'C14': ('glookup', 'lookup', 'genenum', 'gendesc'),
     'C15': ('genapi', 'gendesc'),
     'C20': ('gensvc',),
 }
+DIRECT_ONLY = ('glookup',)      # operations judged by the direct oracle only (the Lean driver is not given the .proto)
 STAGES = {
     'C03': ('protoc', 'cc'),
     'C12': ('protoc', 'cc'),
     'C13': ('protoc', 'cc', 'probe', 'probe_run'),
+    'C14': ('protoc', 'cc'),
     'C15': None,          # every stage
     'C20': ('protoc', 'cc'),
 }
@@ -60,6 +63,31 @@ def build_case(P, rng, nmsgs=12):
         for f in m.fields[:6]:
             lines.append('lookup fnum %d %d' % (ty, f.id))
             lines.append('lookup fnum %d %d' % (ty, f.id + 1))
+    # public lookup functions on the generated descriptors: every emitted name / number, near misses, extremes
+    def near(nm):
+        return [nm, nm + 'x', nm[:-1] or '-', nm.upper() if nm.upper() != nm else nm.lower(), '-', 'zzzz', '0']
+    for ty, m in enumerate(sch.msgs):
+        names = set()
+        for fi, f in enumerate(m.fields):
+            names.add(emitted_name(P, ty, f))
+            names.add(f.name)
+        for nm in sorted(names):
+            for k in near(nm)[:4]:
+                lines.append('glookup field %d %s' % (ty, k))
+        lines.append('glookup field %d -' % ty)
+    for ei, e in enumerate(P.enums):
+        nums = sorted({v for _, v in e.values})
+        keys = set(nums) | {v + 1 for v in nums} | {v - 1 for v in nums} | {0, -1, 2147483647, -2147483648}
+        for v in sorted(k for k in keys if -(1 << 31) <= k < (1 << 31)):
+            lines.append('glookup enum %d num %d' % (ei, v))
+        for nm, _ in e.values:
+            for k in near(nm)[:3]:
+                lines.append('glookup enum %d name %s' % (ei, k))
+        lines.append('glookup enum %d name -' % ei)
+    for si, (sname, methods) in enumerate(P.services):
+        for mn, _, _ in methods:
+            for k in near(mn)[:4]:
+                lines.append('glookup method %d %s' % (si, k))
     # presence matrix: every singular scalar / string / bytes field, alone in an otherwise fresh message, explicitly
     # present with (a) the zero / empty value (bytes: length 0 with a non-NULL data pointer), (b) exactly its declared default
     for ty, m in enumerate(sch.msgs):
@@ -91,6 +119,12 @@ def build_case(P, rng, nmsgs=12):
         lines += ['pack ' + l, 'rt ' + l, 'check ' + l,
                   'acc %d X%s' % (ty, encode(sch, m, rng, {'pad': rng.random() < 0.5, 'shuffle': rng.random() < 0.5}).hex())]
     return lines
+
+
+def emitted_name(P, ty, f):
+    if P.file_opts[P.infile[ty]].get('use_oneof_field_name') and f.oneof:
+        return P.oneof_names[(ty, f.group)]
+    return f.name
 
 
 def one(args):
@@ -195,7 +229,7 @@ def evaluate(pid, run):
         if a.startswith('CRASH') or a == '<missing>' or a == 'TIMEOUT':
             fails.append((i, 'crash / sanitizer report running generated code (%s)' % a[:200]))
             continue
-        if a != b:
+        if a != b and op not in DIRECT_ONLY:
             diffs.append((i, op))
         distinct.add((op, hash(a) & 0xffff))
         # ---- direct oracles (no Lean model involved) ----
@@ -263,6 +297,44 @@ def evaluate(pid, run):
                         fails.append((i, 'enum by-name index is not all declared names in sorted order'))
                     elif any(nums[int(ix)] != dict(e.values)[n] for n, ix in bn):
                         fails.append((i, 'an enum name leads to the wrong number'))
+        if pid in ('C14', 'C13') and op == 'glookup':
+            t = l.split()
+            key = '' if t[-1] == '-' else t[-1]
+            d = kvs(a)
+            if t[1] == 'field':
+                ty = int(t[2])
+                m = sch.msgs[ty]
+                if P.code_size(P.infile[ty]):
+                    want = None         # CODE_SIZE: no names are emitted, every lookup by name must say not found
+                    if d.get('idx') != '-1':
+                        fails.append((i, 'a by-name lookup succeeded although the file is optimised for code size (no names emitted)'))
+                else:
+                    hits = [k for k, f in enumerate(m.fields) if emitted_name(P, ty, f) == key]
+                    if hits and d.get('idx') not in [str(h) for h in hits]:
+                        fails.append((i, 'field name %r exists (entry %s) but get_field_by_name returned %s' % (key, hits, a)))
+                    if not hits and d.get('idx') != '-1':
+                        fails.append((i, 'field name %r does not exist but get_field_by_name returned %s' % (key, a)))
+            elif t[1] == 'enum':
+                e = P.enums[int(t[2])]
+                nums = sorted({v for _, v in e.values})
+                if t[3] == 'num':
+                    v = int(t[4])
+                    exp = str(nums.index(v)) if v in nums else '-1'
+                    if d.get('idx') != exp or (v in nums and d.get('value') != str(v)):
+                        fails.append((i, 'enum number %d: get_value returned %s, expected entry %s' % (v, a, exp)))
+                else:
+                    dv = dict(e.values)
+                    if P.code_size(e.infile):
+                        exp = '-1'
+                    else:
+                        exp = str(nums.index(dv[key])) if key in dv else '-1'
+                    if d.get('idx') != exp:
+                        fails.append((i, 'enum name %r: get_value_by_name returned %s, expected entry %s' % (key, a, exp)))
+            else:
+                methods = [mn for mn, _, _ in P.services[int(t[2])][1]]
+                exp = str(methods.index(key)) if (key in methods and not P.code_size(0)) else '-1'
+                if d.get('idx') != exp:
+                    fails.append((i, 'method name %r: get_method_by_name returned %s, expected %s' % (key, a, exp)))
         if pid == 'C20' and op == 'gensvc':
             d = kvs(a)
             si = int(l.split()[1])
